@@ -38,8 +38,7 @@ def parseInfo (j : Json) : PathInfo :=
     names := (arr j "names").map parseNm }
 
 def parseSt (j : Json) : St :=
-  { exceptPath := (strs j "except_path").map String.toList
-    exceptStr := (strs j "except_str").map String.toList
+  { exc := ((strs j "except_path") ++ (strs j "except_str")).map String.toList
     rel := [] }
 
 def runWalk (j : Json) : List Ev :=
